@@ -47,7 +47,7 @@ Qed.
 Lemma is_von_name_ok t : t <> [] -> lbc t <= 100 -> isok (is_von_name t).
 Proof.
   destruct t as [|c t]; [congruence|]. intros _ H. unfold is_von_name.
-  destruct (is_upper c); [exact I|]. destruct (is_lower c); [exact I|].
+  destruct (uni_is_upper c); [exact I|]. destruct (uni_is_lower c); [exact I|].
   apply isok_bind; [apply scan_go_ok; exact H|intros; exact I].
 Qed.
 
